@@ -147,6 +147,10 @@ def grammar_total(ctx, g):
 
 def run(ctx):
     g = ctx.facts.getters()
+    # Display prints m = r * v of every adjacent index pair at the orbit representatives: a range guard in r / v that rejects an in-range
+    # query (`i > size()` for `i > dim()`) prints 0 there and the text no longer parses back to an equal symbol (shared rule, see C02)
+    from . import c02
+    c02.none_outside_ranges(ctx, g)
     body = ctx.body(ENTRY)
     reach = ctx.facts.reachable(ENTRY)
     ctx.scan(ctx.facts.bodies[d] for d in reach)
